@@ -276,6 +276,15 @@ pub fn leaf(cfg: &GenCfg) -> BoxedStrategy<Node> {
         .boxed(),
     );
     v.push((small(), through).prop_map(move |(a, op)| Node::Un(Op::First, Box::new(Node::Un(op, endl(a))))).boxed());
+    // ... and with the endless producer built by a defer factory: the end has to reach a
+    // source that defer subscribed on the subscriber's behalf
+    if cfg.creation {
+      v.push(
+        (small(), tk(), any::<bool>())
+          .prop_map(move |(a, n, r)| Node::Un(Op::Take(n), Box::new(Node::Defer(0, if r { rep(a) } else { endl(a) }))))
+          .boxed(),
+      );
+    }
     alts.push((3, proptest::strategy::Union::new(v).boxed()));
   }
   if cfg.timed {
@@ -342,9 +351,11 @@ pub fn unary_ops(cfg: &GenCfg) -> BoxedStrategy<Op> {
       if cfg.allowed("window") {
         v.push((2, count1_for(cfg, 4).prop_map(Op::Window).boxed()));
         v.push((1, count1_for(cfg, 3).prop_map(Op::WindowCounts).boxed()));
+        v.push((1, count1_for(cfg, 3).prop_map(Op::WindowFirsts).boxed()));
       }
       if cfg.allowed("group_by") {
         v.push((2, (1i64..=3).prop_map(Op::GroupBy).boxed()));
+        v.push((1, (1i64..=3).prop_map(Op::GroupFirsts).boxed()));
       }
     }
   }
@@ -785,7 +796,7 @@ pub fn chain(cfg: &GenCfg, min_ops: usize, max_ops: usize) -> BoxedStrategy<Node
 pub fn boundary_param(op: &Op, len: usize) -> bool {
   let b = |n: usize| n == 0 || n == 1 || n.saturating_add(1) == len || n == len || n == len + 1;
   match op {
-    Op::Take(n) | Op::TakeLast(n) | Op::Skip(n) | Op::SkipLast(n) | Op::ElementAt(n) | Op::Buffer(n) | Op::Window(n) | Op::WindowCounts(n) => b(*n),
+    Op::Take(n) | Op::TakeLast(n) | Op::Skip(n) | Op::SkipLast(n) | Op::ElementAt(n) | Op::Buffer(n) | Op::Window(n) | Op::WindowCounts(n) | Op::WindowFirsts(n) => b(*n),
     _ => false,
   }
 }
